@@ -19,7 +19,7 @@ def run(ctx):
                    ("ret_all", ret, PROPS, dict(family=FAM_ALL, horizon=20, maxep=1, maxins=2, ttls=(10,)))],
             "gen": [("drop", drop, dict(family=("lease", "leasebatch", "deqvar", "admission", "read"), horizon=10, maxep=1, maxins=2,
                                         pick="insertion", ttls=(10,), ticks=(10,), delays=(0,)), 4)],
-            "drv": [("drv", "all", 120, 60, {})],
+            "drv": [("drv", "all", 120, 60, dict(churn_every=60))],
         }
     else:
         mc = []
@@ -32,7 +32,7 @@ def run(ctx):
                     ("ret", ret, dict(family=FAM_ALL, horizon=20, maxep=1, maxins=2, pick="insertion", ttls=(10,)), 1),
                     ("sim", ret, dict(family=FAM_ALL, horizon=200, maxep=3, maxins=6, pick="insertion", ids=3, simulate=3000, depth=40,
                                       ticks=(1, 5, 10, 30), delays=(0, 7)), 1)],
-            "drv": [("drv", "all", 3000, 80, dict(big_every=40))],
+            "drv": [("drv", "all", 3000, 80, dict(big_every=40, churn_every=100))],
         }
     q.run_plan(ctx, plan, RULE)
 
